@@ -1,6 +1,7 @@
 //! C06 — evaluation steps evaluate everyone once and the evaluation count is exact.
 //! Code: mahf::components::evaluation::PopulationEvaluator::{init,require,execute}, mahf::problems::evaluate::{Sequential::evaluate,ObjectiveFunction}, mahf::state::common::{Evaluator,Evaluations}, mahf::State::holding
 //! Out: the Parallel evaluator (rayon threads: no concurrency model in the engine); populations larger than 3; whole-run exactness is an induction (every other shipped component makes no objective call: not decided here); Evaluations within 3 of u32::MAX (overflow panic)
+//! Reclimit: mahf::state::(registry::)?StateRegistry::<.*>::find(_mut)?::<.*>=2
 //! Assume: objective function = symbolic table over (solution & 3) with a call counter per population slot (solutions are tagged 0..n); one evaluation step from an arbitrary population (evaluated or not) and an arbitrary previous counter
 use mahf::components::evaluation::PopulationEvaluator;
 use mahf::components::Component;
